@@ -148,28 +148,29 @@ def run_traced(spec, fault=None, gp_faults=None, predict_faults=None, ei_script=
     o_pm = bb.poll_mads_2n
 
     class RecRnd:
-        """Recording proxy for numpy.random inside poll_mads_2n (delegates; stream undisturbed)."""
+        """Recorder for the two numpy.random functions poll_mads_2n draws from (delegates; stream undisturbed).  They are swapped on the
+        numpy.random module itself for the duration of the call, so it does not matter under which name the code reaches them."""
         def __init__(self):
             self.draws = []
+            self.o_randint, self.o_perm = np.random.randint, np.random.permutation
         def randint(self, *a, **k):
-            r = np.random.randint(*a, **k)
+            r = self.o_randint(*a, **k)
             self.draws.append(("randint", [_f(v) for v in a], np.asarray(r).tolist()))
             return r
         def permutation(self, M):
             # reproduce np.random.permutation(M) = M[perm] while observing perm
             n = len(M)
-            perm = np.random.permutation(n)
+            perm = self.o_perm(n)
             self.draws.append(("perm", perm.tolist()))
             return np.asarray(M)[perm]
 
     def w_pm(dim_x, poll_scale, search_mesh_size, mesh_size):
         rec = RecRnd()
-        old = pm.rnd
-        pm.rnd = rec
+        np.random.randint, np.random.permutation = rec.randint, rec.permutation
         try:
             B = o_pm(dim_x, poll_scale, search_mesh_size, mesh_size)
         finally:
-            pm.rnd = old
+            np.random.randint, np.random.permutation = rec.o_randint, rec.o_perm
         b = state["bads"]
         ev.append(("DIRS", {"D": int(dim_x), "poll_scale": _vec(poll_scale), "sms": float(search_mesh_size),
                             "ms": float(mesh_size), "B": _rows(B), "draws": rec.draws, "u": _vec(b.u)}))
@@ -396,7 +397,8 @@ def run_traced(spec, fault=None, gp_faults=None, predict_faults=None, ei_script=
             tr["result"]["keys"] = sorted(res.keys())
         except BaseException as ex:
             tb = traceback.extract_tb(sys.exc_info()[2])
-            frames = [(os.path.relpath(fr.filename, "/repo") if fr.filename.startswith("/repo") else fr.filename, fr.lineno, fr.name) for fr in tb]
+            _R = os.environ.get("VERIF_REPO", "/repo")
+            frames = [(os.path.relpath(fr.filename, _R) if fr.filename.startswith(_R + "/") else fr.filename, fr.lineno, fr.name) for fr in tb]
             inner = [fr for fr in frames if fr[0].startswith("pybads")]
             tr["error"] = {"type": type(ex).__name__, "msg": str(ex)[:300], "frames": frames[-6:],
                            "innermost_pybads": inner[-1] if inner else None,
@@ -532,7 +534,7 @@ def _install_gp_wrappers(patch, state, ev, bb, gpt, es, gp_faults):
 
 def repo_hash():
     h = hashlib.sha256()
-    for root in ("/repo/pybads", os.path.dirname(os.path.abspath(__file__))):
+    for root in (os.path.join(os.environ.get("VERIF_REPO", "/repo"), "pybads"), os.path.dirname(os.path.abspath(__file__))):
         for dp, dn, fn in sorted(os.walk(root)):
             dn.sort()
             if "testing" in dp or "__pycache__" in dp or "/props" in dp:
@@ -540,7 +542,7 @@ def repo_hash():
             for f in sorted(fn):
                 if f.endswith((".py", ".ini")):
                     p = os.path.join(dp, f)
-                    h.update(p.encode())
+                    h.update(os.path.relpath(p, root).encode())
                     h.update(open(p, "rb").read())
     return h.hexdigest()[:20]
 
@@ -580,15 +582,18 @@ def cached(tag, seed, tier, make_jobs):
         except Exception:
             pass
     traces = run_many(jobs)
-    # drop stale entries of the same tag
+    # drop stale entries of the same tag (never another process's temporary file: checks may run concurrently)
     for fn in os.listdir(cdir):
-        if fn.startswith(tag + "_") and fn != key:
+        if fn.startswith(tag + "_") and fn.endswith(".pkl") and fn != key:
             try:
                 os.remove(os.path.join(cdir, fn))
             except OSError:
                 pass
     tmp = path + f".{os.getpid()}.tmp"
-    with open(tmp, "wb") as f:
-        pickle.dump(traces, f)
-    os.replace(tmp, path)
+    try:
+        with open(tmp, "wb") as f:
+            pickle.dump(traces, f)
+        os.replace(tmp, path)
+    except OSError:
+        pass            # the cache is an optimisation only
     return traces
